@@ -50,8 +50,10 @@ ASSUMPTIONS = [
     "added lanelet brings a polygon object not yet in the network and that copies hand out fresh objects",
     "3-D lanelets that were not converted with convert_to_2d are outside the (planar) property; references of a lanelet to traffic signs, "
     "lights or areas that are not in the network are ill-formed input (C10) and not generated",
-    "histories in which a shape attribute is set after construction are judged by the oracle only (the model has no setters): they expose "
-    "the known findings C06/*/stale-after-setter/*",
+    "writing into the array a getter hands out WITHOUT telling the object afterwards (no setter call) is not generated: only histories "
+    "in which the changed array is assigned again (augmented assignment, self-assignment, the constructor's array) are in the quantifier",
+    "histories in which a shape attribute is set after construction are judged by the oracle only (the model has no setters); a failure there has a key "
+    "C06/*/stale-after-setter/<Class.attr>",
     "index states left stale on request (add_lanelet / remove_lanelet with rtree=False and no later rebuild) are modelled and covered by the "
     "theorems but not queried: the property speaks about networks built in a supported way",
 ]
@@ -67,7 +69,8 @@ REQUIRED_BUCKETS = ["net/route/list", "net/route/add", "net/route/empty", "net/r
                     "net/point/multi", "net/point/none", "net/shape/circ", "net/shape/rect", "net/shape/poly", "net/shape/group",
                     "net/shape/multi", "net/shape/none", "net/shape/touching", "shape/rect", "shape/circ", "shape/poly", "shape/group",
                     "shape/on-boundary", "shape/variant/ints", "shape/variant/np", "shape/variant/defaults", "shape/variant/via-translate",
-                    "shape/variant/via-local", "shape/hist/after-query", "shape/hist/before-query", "shape/hist/Rectangle.center",
+                    "shape/variant/via-local", "shape/hist/after-query", "shape/hist/mode/iadd", "shape/hist/mode/inplace-reassign", "shape/hist/mode/ctor-alias",
+                    "shape/hist/in-place-after-cached-read", "shape/hist/before-query", "shape/hist/Rectangle.center",
                     "shape/hist/Circle.radius", "shape/hist/Polygon.vertices", "obst/static", "obst/set", "obst/traj", "obst/group", "obst/hit", "obst/miss", "obst/empty-candidate-list",
                     "meets/poly", "meets/rect", "meets/circ", "meets/touching", "meets/true", "meets/false"]
 
@@ -474,6 +477,13 @@ def gen_shape_case(r):
         base = dict(spec)
         base.update({attr: first[attr]})
         case["hist"] = {"base": base, "query_first": r.random() < 0.6, "attr": attr}
+        if attr in ("c", "v"):
+            # array-valued attribute: how the new value reaches the object.  assign: a new array; iadd: augmented assignment
+            # `shape.attr += offset` (the getter hands out the stored array, numpy changes it in place, the setter gets the
+            # same object back); inplace-reassign: the stored array is overwritten in place and then assigned to itself;
+            # ctor-alias: the array given to the constructor is changed in place by its owner and assigned again
+            case["hist"]["mode"] = r.choice(["assign", "iadd", "iadd", "inplace-reassign", "ctor-alias"])
+            case["hist"]["query_first"] = case["hist"]["query_first"] or r.random() < 0.7
     elif k in ("rect", "circ") and u < 0.45:
         case["variant"] = r.choice(["ints", "np", "defaults", "via-translate", "via-local"])
         if case["variant"] == "ints":
@@ -529,7 +539,39 @@ def build_shape_case(case):
             _ = shp.shapely_object
         val = spec[hist["attr"]]
         name = _ATTR[k][hist["attr"]]
-        setattr(shp, name, np.array(val, dtype=float) if hist["attr"] in ("c", "v") else val)
+        mode = hist.get("mode", "assign")
+        if hist["attr"] not in ("c", "v") or mode == "assign":
+            setattr(shp, name, np.array(val, dtype=float) if hist["attr"] in ("c", "v") else val)
+        else:
+            new = np.array(val, dtype=float)
+            if mode == "ctor-alias":
+                # the caller keeps the array it built the shape from
+                own = np.array(hist["base"][hist["attr"]], dtype=float)
+                if k == "rect":
+                    shp = Rectangle(hist["base"]["l"], hist["base"]["w"], own, hist["base"]["o"])
+                elif k == "circ":
+                    shp = Circle(hist["base"]["r"], own)
+                else:
+                    from commonroad.geometry.shape import Polygon
+                    shp = Polygon(own)
+                if hist["query_first"]:
+                    shp.contains_point(np.array([0.0, 0.0]))
+                    _ = shp.shapely_object
+                own[...] = new if own.shape == new.shape else own
+                if own.shape != new.shape:
+                    own = new
+                setattr(shp, name, own)
+            else:
+                # the history moves the shape by a constant vector (centre: new - old; vertex ring: every vertex alike)
+                old = np.array(hist["base"][hist["attr"]], dtype=float)
+                delta = (new - old) if hist["attr"] == "c" else (new[0] - old[0])
+                cur = getattr(shp, name)                    # the array the getter hands out (the stored one)
+                if mode == "iadd":
+                    cur += delta                            # what `shape.attr += delta` does: in place on the stored array ...
+                    setattr(shp, name, cur)                 # ... then the setter receives that same object
+                else:                                       # inplace-reassign
+                    cur[...] = cur + delta
+                    setattr(shp, name, getattr(shp, name))
         return shp, f"{type(shp).__name__}.{name}"
     var = case.get("variant")
     if var == "ints":
@@ -1227,6 +1269,10 @@ def run_shape(ctx, case, model=True):
     if hist:
         ctx.tag("shape/hist/" + hist)
         ctx.tag("shape/hist/after-query" if case["hist"]["query_first"] else "shape/hist/before-query")
+        if case["hist"].get("mode"):
+            ctx.tag("shape/hist/mode/" + case["hist"]["mode"])
+            if case["hist"]["query_first"] and case["hist"]["mode"] != "assign":
+                ctx.tag("shape/hist/in-place-after-cached-read")
         model = False               # the model has no attribute setters: the oracle judges histories
     impl, mask, impl_exp, mask_exp = [], [], [], []
     kk = kind_key(spec)
